@@ -334,6 +334,22 @@ impl<'a> Model<'a> {
             // C12 (tree half): for every (limit, level): answers after cache == answers before
             let before: Vec<Vec<String>> = HAYSTACKS.iter().map(|hay| s.tree.find(hay)).collect();
             self.outcomes.insert_str(&format!("{before:?}"));
+            // the state itself may be warmed (cache operations are part of the histories): its answers must be those of the
+            // never-warmed tree holding the same values, i.e. the linear scan
+            if s.history.iter().any(|op| matches!(op, Op::Cache(..))) {
+                for (hi, hay) in HAYSTACKS.iter().enumerate() {
+                    let want = self.expected_find(&s.live, hi);
+                    if before[hi] != want {
+                        self.violation(
+                            "warmed-tree-differs-from-linear-scan",
+                            "",
+                            format!("after a history containing warm-ups find({hay:?}) returns {:?}, the values whose pattern matches are {want:?}", before[hi]),
+                            h,
+                        );
+                        break;
+                    }
+                }
+            }
             for limit in [0u64, 1, 2, 3, 8] {
                 for level in [None, Some(0u64), Some(1), Some(2), Some(3)] {
                     crate::common::beat();
